@@ -104,6 +104,23 @@ func init() {
 		Stubs:     []string{"github.com/fsnotify/fsnotify: simulated (the harness feeds the notifications an inotify watcher of the parent directory produces)", "Core.run: a consumer that re-reads the file on every signal and keeps the last complete content"},
 		LevelText: "seeded search over timings of file operations, notification delivery and consumer latency of the real watcher on the simulated clock; the oracle compares what the consumer loaded with the file's final content 10 simulated seconds after the last change",
 		LevelNote: "trusted: the notification sequences the harness emits per operation match Linux inotify semantics; Core's reaction is modelled by the consumer (level 2, the watcher inside Core, is not built)"})
+	w3 := func(id, level, rule, text, note string, quick, thorough int, claims ...string) {
+		reg(&propDef{ID: id, World: "w3", Chunk: 10, Level: level, Quick: quick, Thorough: thorough, QuickS: 80, ThorS: 1500,
+			Rule: rule, Claims: claims, LevelText: text, LevelNote: note,
+			Real: []string{"internal/stream (instrumented)", "internal/recorder fMP4 (instrumented)", "internal/playback onList/onGet/seekAndMux/segmentFMP4*/muxers (instrumented, called without listener)",
+				"internal/recordstore", "internal/recordcleaner (instrumented)", "real files in a per-run directory"},
+			Stubs: []string{"publisher: simulated (identifiable H.264 / LPCM samples with scripted pauses and absolute-time jumps)", "playback authentication: admit-all (permission is C04)", "HTTP listener: handlers are called through gin test contexts"}})
+	}
+	w3("C27", "fault_enumeration",
+		"seeded recording (video/audio mix, GOP, segment/part durations, maxPartSize, pauses, absolute-time jumps that restart the recorder) x crash states of every segment file: box boundaries +-1, header interior and seeded random write offsets (thorough: up to 200 per file, 1 recording in 20 with every offset), truncated tail and zero-filled tail up to the end of the write in progress, torn in-place duration patch; evaluations = simulated recordings, crash states are counted in coverage.extra_totals.crash_states; non-trivial = at least one crash state was checked; distinct = distinct (event-log hash, states)",
+		"enumeration of crash states of real recordings made by the real recorder; for each state the real playback code must serve every sample an independent box reader finds in complete parts; closed segments are checked for structure, true duration, key-frame start, continuity and the one-part loss bound",
+		"trusted: the independent box reader (worlds/w3/zz_boxes.go); crash model = byte prefix of the append-only file with truncated or zero-filled tail, plus partial application of the duration patch; block reordering of earlier writes is outside",
+		40, 2000, "*")
+	w3("C28", "fault_enumeration",
+		"crash states as for C27 (8-40 per file) plus 16-64 seeded corruptions per recording (bit flips in box headers, box sizes 0/1/7/huge, zero pages, random bytes, empty file, zero-filled header payload, foreign and look-alike files, a directory in place of a file); 5 list/get requests per state; evaluations = simulated recordings, states in coverage.extra_totals; non-trivial = at least one state probed; distinct = distinct (event-log hash, states)",
+		"every playback entry point is called on every directory state inside the simulation; a panic in the handler or in any goroutine it starts is a violation",
+		"trusted: goroutine panics are captured by the simrt goroutine wrapper; the API recordings endpoints (package api) are not called",
+		60, 3000, "*")
 	props["C40"].Race = true
 	props["C40"].Quick, props["C40"].Thorough = 1200, 100000
 	props["C40"].LevelNote += "; metrics scrapes over HTTP and real session kick paths are outside (front-ends are stubs); data races are those the Go race detector reports under the explored schedules"
@@ -459,11 +476,12 @@ type stats struct {
 	hashes                              map[int64]string
 	maxGoroutines                       int
 	otherProps                          map[string]int64
+	extra                               map[string]int64
 }
 
 func newStats() *stats {
 	return &stats{counters: map[string]int64{}, strategies: map[string]int64{}, orderHashes: map[string]bool{},
-		absStates: map[string]bool{}, siteHits: map[string]int64{}, hashes: map[int64]string{}, otherProps: map[string]int64{}}
+		absStates: map[string]bool{}, siteHits: map[string]int64{}, hashes: map[int64]string{}, otherProps: map[string]int64{}, extra: map[string]int64{}}
 }
 
 func (s *stats) add(l *line) {
@@ -498,6 +516,16 @@ func (s *stats) add(l *line) {
 		s.absStates[l.Abstract[0]] = true
 	}
 	s.hashes[l.Seed] = l.Hash
+	if len(l.Extra) > 0 {
+		var m map[string]any
+		if json.Unmarshal(l.Extra, &m) == nil {
+			for k, v := range m {
+				if f, ok := v.(float64); ok {
+					s.extra[k] += int64(f)
+				}
+			}
+		}
+	}
 	if l.Scenario != nil && len(l.Violations) == 0 && len(s.samples) < 3 {
 		var body any
 		json.Unmarshal(l.Scenario.Body, &body)
@@ -850,7 +878,7 @@ func countOps(body map[string]any) (actors, ops int) {
 			}
 		}
 	}
-	for _, key := range []string{"ops", "arrivals"} {
+	for _, key := range []string{"ops", "arrivals", "phases"} {
 		if o, ok := body[key].([]any); ok {
 			ops += len(o)
 		}
@@ -960,7 +988,7 @@ func confirmShrinkWrite(b *built, p *propDef, l *line, v violation, budget time.
 			}
 		}
 		// top-level operation lists of the small worlds
-		for _, key := range []string{"ops", "arrivals"} {
+		for _, key := range []string{"ops", "arrivals", "phases"} {
 			lst, _ := cur[key].([]any)
 			for j := len(lst) - 1; j >= 0 && len(lst) > 1 && time.Since(t0) < budget; j-- {
 				cand := clone(cur)
@@ -1224,6 +1252,7 @@ func writeEvidence(p *propDef, tier string, seed int64, st *stats, b *built, wal
 			"determinism_rechecks":      rechecked,
 			"max_goroutines_per_run":    st.maxGoroutines,
 			"other_property_signals":    st.otherProps,
+			"extra_totals":              st.extra,
 			"known_findings_reobserved": kf,
 			"real_components":           p.Real,
 			"stub_components":           p.Stubs,
